@@ -92,7 +92,7 @@ for c in mutants.CONTROLS:
     report(c['name'], not bad, str(bad) if bad else 'silent on %d checks' % len(claimed))
     restore()
 # patch-based behaviour-preserving controls
-for pf in sorted(glob.glob(os.path.join(VERIF, 'selftest', 'controls', '*.diff'))):
+for pf in sorted(glob.glob(os.path.join(VERIF, 'selftest', 'controls', '*.diff')) + ([] if '--fast' in sys.argv else glob.glob(os.path.join(VERIF, 'selftest', 'controls', 'refactor', '*.diff')))):
     name = os.path.basename(pf)[:-5]
     if not selected(name):
         continue
